@@ -1,4 +1,251 @@
-//! c18 check (under construction)
+//! C18 - signed control-plane messages verify iff authentic; RPC conversion is lossless.
+//!
+//! EXHAUSTIVE fault enumeration through the real code (`sciparse` segment / signed_message /
+//! path RPC conversions):
+//!  * `sig`     - every tamper of bounded signed segments (bit flips, entry permutations,
+//!                truncations, duplications, splices, key-provider substitutions), each followed by
+//!                `try_from_rpc` and `validate_signature` of every entry. Oracle: provenance records
+//!                of spec-signed (seg.proto) entries.
+//!  * `paths`   - `ScionPath::try_from_rpc(to_rpc(p)) == p` over paths with every subset of the
+//!                metadata vectors populated; daemon::Path field/vector-length mutations.
+//!  * `segrpc`  - PathSegment / AsEntry / HopField / PeerEntry field mutations (one and two at a time).
+use std::collections::BTreeMap;
+
+use p256::ecdsa::{SigningKey, VerifyingKey, signature::hazmat::PrehashSigner};
+use prost::Message;
+use sciparse::reexport::{p256, prost, protobuf as pb};
+use serde_json::{Value, json};
+use sha2::{Digest, Sha256};
+
+use pb::{control_plane::v1 as cp, crypto::v1 as cr};
+
+mod paths;
+mod segrpc;
+mod sig;
+
+/// Number of ASes with keys: 0..=4 on path, 5 = peer AS.
+pub const N_AS: usize = 6;
+
+pub fn ia(i: usize) -> u64 {
+    (1u64 << 48) | (0xff00_0000_0110 + i as u64)
+}
+
+/// Deterministic P-256 keys (no randomness anywhere in this check).
+pub fn det_key(label: &str) -> SigningKey {
+    for ctr in 0u32..64 {
+        let d = Sha256::digest(format!("vp-signed/c18/{label}/{ctr}").as_bytes());
+        if let Ok(k) = SigningKey::from_slice(&d) {
+            return k;
+        }
+    }
+    vpc::machinery_failure("cannot derive deterministic key")
+}
+
+pub struct World {
+    pub sk: Vec<SigningKey>,
+    pub vk: Vec<VerifyingKey>,
+    pub kid: Vec<cp::VerificationKeyId>,
+    pub kid_enc: Vec<Vec<u8>>,
+    pub fresh: VerifyingKey,
+}
+impl World {
+    pub fn new() -> World {
+        let sk: Vec<SigningKey> = (0..N_AS).map(|i| det_key(&format!("as{i}"))).collect();
+        let vk: Vec<VerifyingKey> = sk.iter().map(|k| *k.verifying_key()).collect();
+        let kid: Vec<cp::VerificationKeyId> = (0..N_AS)
+            .map(|i| cp::VerificationKeyId {
+                isd_as: ia(i),
+                subject_key_id: Sha256::digest(vk[i].to_sec1_bytes())[..20].to_vec(),
+                trc_base: 1,
+                trc_serial: 1,
+            })
+            .collect();
+        let kid_enc = kid.iter().map(|k| k.encode_to_vec()).collect();
+        World { sk, vk, kid, kid_enc, fresh: *det_key("fresh").verifying_key() }
+    }
+    /// Key lookup by key id (exact match of all four fields), independent of entry position.
+    pub fn lookup(&self, enc: &[u8]) -> Result<usize, &'static str> {
+        let k = cp::VerificationKeyId::decode(enc).map_err(|_| "malformed")?;
+        self.kid.iter().position(|x| *x == k).ok_or("unknown")
+    }
+}
+
+/// Reference signer written from seg.proto / signed.proto:
+/// input = header_and_body || segment_info || (hb_0 || sig_0) || ... ; ECDSA-P256 over SHA-256, DER.
+pub fn ref_sign(sk: &SigningKey, hb: &[u8], assoc: &[&[u8]]) -> Vec<u8> {
+    let mut h = Sha256::new();
+    h.update(hb);
+    for a in assoc {
+        h.update(a);
+    }
+    let d = h.finalize();
+    let s: p256::ecdsa::Signature = sk.sign_prehash(&d).unwrap_or_else(|e| vpc::machinery_failure(&format!("reference sign failed: {e}")));
+    s.to_der().as_bytes().to_vec()
+}
+
+pub fn ref_header(alg: i32, key_id: Vec<u8>, sign_ts: Option<i64>, adl: i32, metadata: Vec<u8>) -> cr::Header {
+    cr::Header {
+        signature_algorithm: alg,
+        verification_key_id: key_id,
+        timestamp: sign_ts.map(|s| sciparse::reexport::prost_types::Timestamp { seconds: s, nanos: 0 }),
+        metadata,
+        associated_data_length: adl,
+    }
+}
+
+pub struct Finding {
+    pub class: String,
+    pub what: String,
+    pub witness: Value,
+}
+
+/// Aggregate of a chunk of cases; merged sequentially in case order (deterministic output).
+#[derive(Default)]
+pub struct Agg {
+    pub counts: BTreeMap<String, u64>,
+    pub findings: Vec<Finding>,
+    pub samples: Vec<Value>,
+}
+impl Agg {
+    pub fn inc(&mut self, k: &str) {
+        self.add(k, 1);
+    }
+    pub fn add(&mut self, k: &str, n: u64) {
+        if let Some(v) = self.counts.get_mut(k) {
+            *v += n;
+        } else {
+            self.counts.insert(k.to_string(), n);
+        }
+    }
+    pub fn find(&mut self, class: impl Into<String>, what: impl Into<String>, witness: Value) {
+        // keep memory bounded: the first few witnesses per class per chunk are enough (counts go to `counts`)
+        let class = class.into();
+        self.add(&format!("finding:{class}"), 1);
+        if self.findings.iter().filter(|f| f.class == class).count() < 1 {
+            self.findings.push(Finding { class, what: what.into(), witness });
+        }
+    }
+    pub fn merge(&mut self, o: Agg) {
+        for (k, v) in o.counts {
+            *self.counts.entry(k).or_default() += v;
+        }
+        for f in o.findings {
+            if !self.findings.iter().any(|g| g.class == f.class) {
+                self.findings.push(f);
+            }
+        }
+        for s in o.samples {
+            if self.samples.len() < 6 {
+                self.samples.push(s);
+            }
+        }
+    }
+    pub fn get(&self, k: &str) -> u64 {
+        self.counts.get(k).copied().unwrap_or(0)
+    }
+}
+
+/// `panic@<crate-relative file>:<line>` with sandbox/registry prefixes removed.
+pub fn panic_class() -> String {
+    let loc = vpc::last_panic_location();
+    let short = if let Some(i) = loc.find("/crates/") {
+        &loc[i + 1..]
+    } else if let Some(i) = loc.find("registry/src/") {
+        let r = &loc[i + "registry/src/".len()..];
+        r.split_once('/').map(|x| x.1).unwrap_or(r)
+    } else if let Some(r) = loc.strip_prefix("/rustc/") {
+        r.split_once('/').map(|x| x.1).unwrap_or(r)
+    } else {
+        &loc
+    };
+    format!("panic@{short}")
+}
+
 pub fn run(args: &vpc::Args) -> ! {
-    vpc::machinery_failure(&format!("property {} not implemented yet", args.prop))
+    vpc::quiet_panics();
+    let world = World::new();
+    if let Some(p) = &args.replay {
+        replay(&world, p);
+    }
+    let run = vpc::Run::new(args);
+    let thorough = run.tier == vpc::Tier::Thorough;
+
+    let mut total = Agg::default();
+    let t0 = run.elapsed_s();
+    let sig_bound = sig::enumerate(&world, thorough, &mut total);
+    let t1 = run.elapsed_s();
+    let path_bound = paths::enumerate(thorough, &mut total);
+    let t2 = run.elapsed_s();
+    let seg_bound = segrpc::enumerate(&world, thorough, &mut total);
+    let t3 = run.elapsed_s();
+
+    for (k, v) in &total.counts {
+        if !k.starts_with("finding:") && !k.starts_with("n:") {
+            run.outcome_n(k, *v);
+        }
+    }
+    for s in &total.samples {
+        let s = s.clone();
+        run.sample(6, move || s);
+    }
+    let mut classes = vec![];
+    for f in total.findings {
+        let n = total.counts.get(&format!("finding:{}", f.class)).copied().unwrap_or(1);
+        classes.push(json!({"class": f.class, "witnesses": n}));
+        run.violation(&f.class, &format!("{} ({n} witnesses this run)", f.what), f.witness);
+    }
+    let n = |k: &str| total.counts.get(k).copied().unwrap_or(0);
+    let coverage = json!({
+        "evaluations": n("n:validations"),
+        "validations_in_tamper_enumeration": n("n:sig-validations"),
+        "tamper_cases": n("n:sig-cases"),
+        "conversions": n("n:conversions"),
+        "distinct_nontrivial": n("n:sig-nontrivial"),
+        "rule": "distinct (base segment, tamper kind, tamper position) cases whose per-entry verdict vector (or conversion result) differs from the all-valid vector of the untampered segment - measured by running the real validate_signature",
+        "nontrivial_by_kind": total.counts.iter().filter(|(k, _)| k.starts_with("n:nontrivial:")).map(|(k, v)| (k["n:nontrivial:".len()..].to_string(), *v)).collect::<BTreeMap<_, _>>(),
+        "cases_by_kind": total.counts.iter().filter(|(k, _)| k.starts_with("n:cases:")).map(|(k, v)| (k["n:cases:".len()..].to_string(), *v)).collect::<BTreeMap<_, _>>(),
+        "segment_info_flips_without_semantic_change": n("n:info-flip-noop"),
+        "path_roundtrip_cases": n("n:path-rt-cases"),
+        "path_rpc_mutation_cases": n("n:path-rpc-cases"),
+        "segment_rpc_mutation_cases": n("n:seg-rpc-cases"),
+        "violation_class_witness_counts": classes,
+        "exhaustive": true,
+        "bound": format!("{sig_bound}; {path_bound}; {seg_bound}"),
+        "wall_s_by_part": {"sig": t1 - t0, "paths": t2 - t1, "segrpc": t3 - t2},
+    });
+    run.finish(
+        "fault_enumeration",
+        coverage,
+        &[
+            "ECDSA-P256/SHA-256 (p256 crate) is assumed unforgeable; only the enumerated edits are decided",
+            "authentic = signed by the harness' reference signer written from seg.proto (input = header_and_body || segment_info || previous header_and_body||signature ...); the library's own signer is cross-checked byte for byte against it",
+            "ECDSA (r, n-s) malleability is probed and reported as an outcome, not judged (not a single-bit edit)",
+            "AsEntry.extensions / unsigned_extensions are documented as unsupported and kept empty",
+            "proto3 scalars: 'absent' and 0 have the same encoding",
+        ],
+    )
+}
+
+fn replay(world: &World, p: &std::path::Path) -> ! {
+    let v = vpc::read_replay(p);
+    let w = &v["witness"];
+    let part = w["part"].as_str().unwrap_or("");
+    let mut agg = Agg::default();
+    match part {
+        "sig" => sig::replay(world, w, &mut agg),
+        "path-rt" | "path-rpc" => paths::replay(w, &mut agg),
+        "seg-rpc" => segrpc::replay(world, w, &mut agg),
+        o => vpc::machinery_failure(&format!("unknown replay part {o:?}")),
+    }
+    for (k, n) in &agg.counts {
+        println!("  outcome {k} = {n}");
+    }
+    if agg.findings.is_empty() {
+        println!("REPLAY property=C18 class={} : not reproduced (no violation on this tree)", v["class"].as_str().unwrap_or("?"));
+        std::process::exit(0)
+    }
+    for f in &agg.findings {
+        println!("REPLAY-VIOLATION property=C18 [{}] {}", f.class, f.what);
+    }
+    std::process::exit(1)
 }
